@@ -15,7 +15,9 @@
 (*   docOut / implOut : the discriminant each side assigns to the variant  *)
 (*                       consumed by the last step                          *)
 (*                                                                         *)
-(* try_from.rs (as repaired by 56e824b: `(#last_discriminant) + #inc`):    *)
+(* try_from.rs (as repaired by 56e824b and 9cacb68: the offset is added to *)
+(* the parenthesised expression, in the repr type, wrapping - exact for    *)
+(* every enum rustc accepts):                                              *)
 (*     for variant in variants {                                           *)
 (*         if let Some(d) = explicit { last_discriminant = d; inc = 0; }   *)
 (*         const = last_discriminant + inc;  inc += 1;                     *)
